@@ -89,7 +89,6 @@ Definition child_valid (ty : N * N) (items : list citem) : Prop :=
   forall c cn, In (CElem c) items -> w_nodes w c = Some cn -> in_file f cn = true ->
     exists tc ixs, find_sub_element T ty (n_name cn) v = Val (Some (tc, ixs)) /\ Valid T w f v tc c.
 
-Hypothesis HKm : K_mixup T w f v.
 Hypothesis HKs : K_skip T w f v.
 
 Lemma sub_loop_exact (rec : id -> res cres) ty i n :
@@ -132,7 +131,6 @@ Proof.
     + (* found in version v *)
       cbn match in H.
       destruct (find_sub_element_mask T _ _ _ _ _ E1) as (mm & Hmask & Hmm).
-      rewrite (HKm ty i n c cn ixs HV Hn Hin Ecn Efile (ex_intro _ tc (or_introl E1))) in H.
       rewrite Hmask in H. cbn [bind unwrap] in H.
       assert (Hcomp : compatible v mm = true).
       { unfold compatible. apply negb_true_iff, N.eqb_neq. rewrite N.land_comm. exact Hmm. }
@@ -149,7 +147,6 @@ Proof.
     + destruct r2 as [[tc ixs]|].
       * (* found only in other versions: the entry's mask excludes v, an error is pushed *)
         cbn match in H.
-        rewrite (HKm ty i n c cn ixs HV Hn Hin Ecn Efile (ex_intro _ tc (or_intror (conj E1 E2)))) in H.
         destruct (get_sub_element_version_mask T ty ixs) as [[mm|]| |] eqn:Hmask; cbn [bind unwrap] in H; try discriminate.
         pose proof (find_sub_element_fallback T _ _ _ _ _ _ _ E1 E2 Hmask) as Hz.
         assert (Hcomp : compatible v mm = false).
@@ -189,7 +186,7 @@ Proof.
     rewrite En in Hn'. injection Hn' as <-. repeat split; assumption.
 Qed.
 
-Theorem f_check_exact r :
+Theorem f_check_exact_fixed r :
   f_check T w f v = Val r -> (fst r = [] <-> ValidIn T w f v).
 Proof.
   unfold f_check.
@@ -211,3 +208,9 @@ Proof.
 Qed.
 
 End Exact.
+
+(* the statement as it was before the fix of the mask lookup (K_mixup is no longer needed) *)
+Theorem f_check_exact (T : tables) (w : world) (f v : N) :
+  K_mixup T w f v -> K_skip T w f v -> K_recalc T w f v ->
+  forall r, f_check T w f v = Val r -> (fst r = [] <-> ValidIn T w f v).
+Proof. intros _ Ks Kr r. exact (f_check_exact_fixed T w f v Ks Kr r). Qed.
